@@ -512,43 +512,43 @@ variable (ae : Autoescape) (buf : Bytes)
 
 def CmdNe (c : Cmd) : Prop :=
   ∀ (fuel : Nat) (sc : Scope) (r : JsStmts × Scope) (env : SEnv) (jenv : JEnv) (out : Bytes),
-    toCmd ae buf c sc = some r → ScOk sc → EnvRel sc env jenv → BufIs buf jenv out →
+    toCmd ae buf c sc = some r → ScOk sc → GoodBuf sc buf → EnvRel sc env jenv → BufIs buf jenv out →
     execStmts F fuel r.1 jenv = .error → ∀ x, refCmd F ae c env ≠ .val x
 
 def BlockNe (b : Block) : Prop :=
   ∀ (fuel : Nat) (sc : Scope) (r : JsStmts × Scope) (env : SEnv) (jenv : JEnv) (out : Bytes),
-    toBlock ae buf b sc = some r → ScOk sc → EnvRel sc env jenv → BufIs buf jenv out →
+    toBlock ae buf b sc = some r → ScOk sc → GoodBuf sc buf → EnvRel sc env jenv → BufIs buf jenv out →
     execStmts F fuel r.1 jenv = .error → ∀ x, refBlock F ae b env ≠ .val x
 
 def BodyNe (b : Block) : Prop :=
   ∀ (fuel : Nat) (sc : Scope) (r : JsStmts × Scope) (env : SEnv) (jenv : JEnv) (out : Bytes),
-    toBody ae buf b sc = some r → ScOk sc → EnvRel sc env jenv → BufIs buf jenv out →
+    toBody ae buf b sc = some r → ScOk sc → GoodBuf sc buf → EnvRel sc env jenv → BufIs buf jenv out →
     execStmts F fuel r.1 jenv = .error → ∀ x, refBlock F ae b env ≠ .val x
 
 def CmdsNe (cs : CmdList) : Prop :=
   ∀ (fuel : Nat) (sc : Scope) (r : JsStmts × Scope) (env : SEnv) (jenv : JEnv) (out : Bytes),
-    toCmds ae buf cs sc = some r → ScOk sc → EnvRel sc env jenv → BufIs buf jenv out →
+    toCmds ae buf cs sc = some r → ScOk sc → GoodBuf sc buf → EnvRel sc env jenv → BufIs buf jenv out →
     execStmts F fuel r.1 jenv = .error → ∀ x, refCmds F ae cs env ≠ .val x
 
 def CondsNe (cs : CondList) : Prop :=
   ∀ (fuel : Nat) (sc : Scope) (r : JsConds × Scope) (env : SEnv) (jenv : JEnv) (out : Bytes),
-    toConds ae buf cs sc = some r → ScOk sc → EnvRel sc env jenv → BufIs buf jenv out →
+    toConds ae buf cs sc = some r → ScOk sc → GoodBuf sc buf → EnvRel sc env jenv → BufIs buf jenv out →
     execConds F fuel r.1 jenv = .error → ∀ x, refConds F ae cs env ≠ .val x
 
 def CasesNe (cs : CaseList) : Prop :=
   ∀ (fuel : Nat) (sc : Scope) (r : JsCases × Scope) (env : SEnv) (jenv : JEnv) (out : Bytes) (sv : Val) (jv : JVal),
-    toCases ae buf cs sc = some r → ScOk sc → EnvRel sc env jenv → BufIs buf jenv out → toJsV sv = some jv →
+    toCases ae buf cs sc = some r → ScOk sc → GoodBuf sc buf → EnvRel sc env jenv → BufIs buf jenv out → toJsV sv = some jv →
     execCases F fuel r.1 jv jenv = .error → ∀ x, refCases F ae cs sv env ≠ .val x
 
 theorem rawText_ne (p : Nat) (t : Bytes) : CmdNe F ae buf (.rawText p t) := by
-  intro fuel sc r env jenv out h hs hrel hb hx
+  intro fuel sc r env jenv out h hs hg hrel hb hx
   simp only [toCmd, Option.some.injEq] at h; subst h
   rw [execStmts_one] at hx
   simp only [execStmt] at hx
   exact absurd hx (appendTo_ne_error hb _)
 
 theorem print_ne (p : Nat) (arg : Expr) (dirs : List Directive) : CmdNe F ae buf (.print p arg dirs) := by
-  intro fuel sc r env jenv out h hs hrel hb hx
+  intro fuel sc r env jenv out h hs hg hrel hb hx
   unfold toCmd at h
   split at h
   · rename_i hok
@@ -574,7 +574,7 @@ theorem print_ne (p : Nat) (arg : Expr) (dirs : List Directive) : CmdNe F ae buf
   · cases h
 
 theorem letValue_ne (p : Nat) (x : Bytes) (e : Expr) : CmdNe F ae buf (.letValue p x e) := by
-  intro fuel sc r env jenv out h hs hrel hb hx
+  intro fuel sc r env jenv out h hs hg hrel hb hx
   unfold toCmd at h
   split at h
   · cases h
@@ -590,7 +590,7 @@ theorem letValue_ne (p : Nat) (x : Bytes) (e : Expr) : CmdNe F ae buf (.letValue
     · cases h
 
 theorem ifc_ne (p : Nat) (conds : CondList) (ih : CondsNe F ae buf conds) : CmdNe F ae buf (.ifc p conds) := by
-  intro fuel sc r env jenv out h hs hrel hb hx
+  intro fuel sc r env jenv out h hs hg hrel hb hx
   unfold toCmd at h
   split at h
   · rename_i rc hrc
@@ -598,11 +598,11 @@ theorem ifc_ne (p : Nat) (conds : CondList) (ih : CondsNe F ae buf conds) : CmdN
     rw [execStmts_one] at hx
     simp only [execStmt] at hx
     simp only [refCmd]
-    exact out_bind_not_val (ih fuel sc rc env jenv out hrc hs hrel hb hx)
+    exact out_bind_not_val (ih fuel sc rc env jenv out hrc hs hg hrel hb hx)
   · cases h
 
 theorem block_ne (p : Nat) (cmds : CmdList) (ih : CmdsNe F ae buf cmds) : BlockNe F ae buf (.mk p cmds) := by
-  intro fuel sc r env jenv out h hs hrel hb hx
+  intro fuel sc r env jenv out h hs hg hrel hb hx
   unfold toBlock at h
   split at h
   · rename_i rc hrc
@@ -612,28 +612,28 @@ theorem block_ne (p : Nat) (cmds : CmdList) (ih : CmdsNe F ae buf cmds) : BlockN
       rw [lookup_push]
       exact hrel k hk hd
     simp only [refBlock]
-    exact ih fuel sc.push rc env jenv out hrc (scOk_push hs.2) hrel' hb hx
+    exact ih fuel sc.push rc env jenv out hrc (scOk_push hs.2) (goodBuf_push hg) hrel' hb hx
   · cases h
 
 theorem body_ne (p : Nat) (cmds : CmdList) (ih : CmdsNe F ae buf cmds) : BodyNe F ae buf (.mk p cmds) := by
-  intro fuel sc r env jenv out h hs hrel hb hx
+  intro fuel sc r env jenv out h hs hg hrel hb hx
   unfold toBody at h
   simp only [refBlock]
-  exact ih fuel sc r env jenv out h hs hrel hb hx
+  exact ih fuel sc r env jenv out h hs hg hrel hb hx
 
 theorem cmds_nil_ne : CmdsNe F ae buf .nil := by
-  intro fuel sc r env jenv out h hs hrel hb hx
+  intro fuel sc r env jenv out h hs hg hrel hb hx
   simp only [toCmds, Option.some.injEq] at h; subst h
   simp [execStmts] at hx
 
 theorem conds_nil_ne : CondsNe F ae buf .nil := by
-  intro fuel sc r env jenv out h hs hrel hb hx
+  intro fuel sc r env jenv out h hs hg hrel hb hx
   simp only [toConds, Option.some.injEq] at h; subst h
   simp [execConds] at hx
 
 theorem conds_some_ne (p : Nat) (c : Expr) (body : Block) (rest : CondList) (ih1 : BlockNe F ae buf body)
     (ih2 : CondsNe F ae buf rest) : CondsNe F ae buf (.cons p (some c) body rest) := by
-  intro fuel sc r env jenv out h hs hrel hb hx
+  intro fuel sc r env jenv out h hs hg hrel hb hx
   unfold toConds at h
   simp only at h
   split at h
@@ -651,16 +651,16 @@ theorem conds_some_ne (p : Nat) (c : Expr) (body : Block) (rest : CondList) (ih1
         simp only [Spec.Eval.Out.bind, htr]
         by_cases hc : toBoolean jv = true
         · simp only [hc, if_true] at hx ⊢
-          exact ih1 fuel sc rb env jenv out hbk hs hrel hb hx
+          exact ih1 fuel sc rb env jenv out hbk hs hg hrel hb hx
         · simp only [hc, Bool.false_eq_true, if_false] at hx ⊢
-          obtain ⟨a1, a2⟩ := toBlock_scope ae buf body sc rb hbk hs
-          exact ih2 fuel rb.2 rr env jenv out hr (scOk_of_stack hs a1 a2) (envRel_stack hrel a1) hb hx
+          obtain ⟨a1, a2⟩ := toBlock_scope ae body buf sc rb hbk hs
+          exact ih2 fuel rb.2 rr env jenv out hr (scOk_of_stack hs a1 a2) (goodBuf_of_stack hg a1 a2) (envRel_stack hrel a1) hb hx
     · cases h
   · cases h
 
 theorem conds_else_ne (p : Nat) (body : Block) (rest : CondList) (ih1 : BlockNe F ae buf body) :
     CondsNe F ae buf (.cons p none body rest) := by
-  intro fuel sc r env jenv out h hs hrel hb hx
+  intro fuel sc r env jenv out h hs hg hrel hb hx
   unfold toConds at h
   simp only at h
   split at h
@@ -668,15 +668,13 @@ theorem conds_else_ne (p : Nat) (body : Block) (rest : CondList) (ih1 : BlockNe 
     simp only [Option.some.injEq] at h; subst h
     simp only [execConds] at hx
     simp only [refConds]
-    exact ih1 fuel sc rb env jenv out hbk hs hrel hb hx
+    exact ih1 fuel sc rb env jenv out hbk hs hg hrel hb hx
   · cases h
 
-variable (hbuf : buf.contains 36 = false)
-include hbuf
 
 theorem cmds_cons_ne (c : Cmd) (rest : CmdList) (ih1 : CmdNe F ae buf c) (ih2 : CmdsNe F ae buf rest) :
     CmdsNe F ae buf (.cons c rest) := by
-  intro fuel sc r env jenv out h hs hrel hb hx
+  intro fuel sc r env jenv out h hs hg hrel hb hx
   unfold toCmds at h
   split at h
   · cases h
@@ -688,16 +686,15 @@ theorem cmds_cons_ne (c : Cmd) (rest : CmdList) (ih1 : CmdNe F ae buf c) (ih2 : 
       rw [execStmts_append] at hx
       simp only [refCmds]
       rcases sres_bind_error hx with hx | ⟨e1, hx1, hx2⟩
-      · exact out_bind_not_val (ih1 fuel sc r1 env jenv out h1 hs hrel hb hx)
-      · obtain ⟨t1, env1, ht1, hrel1, hb1, _⟩ := cmd_ok F ae buf hbuf c fuel sc r1 env jenv e1 out h1 hs hrel hb hx1
-        obtain ⟨a1, _, _⟩ := toCmd_scope ae buf c sc r1 h1 hs
+      · exact out_bind_not_val (ih1 fuel sc r1 env jenv out h1 hs hg hrel hb hx)
+      · obtain ⟨t1, env1, ht1, hrel1, hb1, _⟩ := cmd_ok F ae c buf fuel sc r1 env jenv e1 out h1 hs hg hrel hb hx1
+        obtain ⟨a1, _, _⟩ := toCmd_scope ae c buf sc r1 h1 hs
         rw [ht1]
         simp only [Spec.Eval.Out.bind]
-        exact out_bind_not_val (ih2 fuel r1.2 r2 env1 e1 (out ++ t1) h2 a1 hrel1 hb1 hx2)
+        exact out_bind_not_val (ih2 fuel r1.2 r2 env1 e1 (out ++ t1) h2 a1 (toCmd_good ae c buf sc r1 h1 hs buf hg) hrel1 hb1 hx2)
 
 /-! ### switch -/
 
-omit hbuf in
 /-- a label that throws: `matchAny` has no value -/
 theorem matchLabels_error {sc : Scope} {env : SEnv} {jenv : JEnv} (hrel : EnvRel sc env jenv) {sv : Val} {jv : JVal}
     (hsv : toJsV sv = some jv) : ∀ (values : List Expr) (js : List JsExpr), astList sc values = some js →
@@ -735,22 +732,20 @@ theorem matchLabels_error {sc : Scope} {env : SEnv} {jenv : JEnv} (hrel : EnvRel
         | error => exact out_bind_not_val (expr_no_throw sc env jenv hrel v j hj hw)
         | unspec => simp [hw] at hm
 
-omit hbuf in
 theorem cases_nil_ne : CasesNe F ae buf .nil := by
-  intro fuel sc r env jenv out sv jv h hs hrel hb hsv hx
+  intro fuel sc r env jenv out sv jv h hs hg hrel hb hsv hx
   simp only [toCases, Option.some.injEq] at h; subst h
   simp [execCases] at hx
 
-omit hbuf in
 theorem cases_cons_ne (p : Nat) (values : List Expr) (body : Block) (rest : CaseList) (ih1 : BlockNe F ae buf body)
     (ih2 : CasesNe F ae buf rest) : CasesNe F ae buf (.cons p values body rest) := by
-  intro fuel sc r env jenv out sv jv h hs hrel hb hsv hx
+  intro fuel sc r env jenv out sv jv h hs hg hrel hb hsv hx
   unfold toCases at h
   obtain ⟨rbv, hrb, hc⟩ := caseJoin_some h
   rcases hc with ⟨rfl, _, rfl⟩ | ⟨hne, js, rr, hjs, hrr, rfl⟩
   · simp only [execCases] at hx
     simp only [refCases, List.isEmpty_nil, if_true]
-    exact ih1 fuel sc rbv env jenv out hrb hs hrel hb hx
+    exact ih1 fuel sc rbv env jenv out hrb hs hg hrel hb hx
   · have hem : values.isEmpty = false := by cases values <;> simp at hne ⊢
     simp only [execCases] at hx
     simp only [refCases, hem, Bool.false_eq_true, if_false]
@@ -771,17 +766,16 @@ theorem cases_cons_ne (p : Nat) (values : List Expr) (body : Block) (rest : Case
         | true =>
           simp only [hm] at hx
           simp only [if_true]
-          exact ih1 fuel sc rbv env jenv out hrb hs hrel hb hx
+          exact ih1 fuel sc rbv env jenv out hrb hs hg hrel hb hx
         | false =>
           simp only [hm] at hx
           simp only [Bool.false_eq_true, if_false]
-          obtain ⟨a1, a2⟩ := toBlock_scope ae buf body sc rbv hrb hs
-          exact ih2 fuel rbv.2 rr env jenv out sv jv hrr (scOk_of_stack hs a1 a2) (envRel_stack hrel a1) hb hsv hx
+          obtain ⟨a1, a2⟩ := toBlock_scope ae body buf sc rbv hrb hs
+          exact ih2 fuel rbv.2 rr env jenv out sv jv hrr (scOk_of_stack hs a1 a2) (goodBuf_of_stack hg a1 a2) (envRel_stack hrel a1) hb hsv hx
 
-omit hbuf in
 theorem switch_ne (p : Nat) (value : Expr) (cases : CaseList) (ih : CasesNe F ae buf cases) :
     CmdNe F ae buf (.switch p value cases) := by
-  intro fuel sc r env jenv out h hs hrel hb hx
+  intro fuel sc r env jenv out h hs hg hrel hb hx
   unfold toCmd at h
   split at h
   · rename_i j rc hj hrc
@@ -794,13 +788,13 @@ theorem switch_ne (p : Nat) (value : Expr) (cases : CaseList) (ih : CasesNe F ae
     · obtain ⟨sv, hsv, hsvj⟩ := C04c.gen_correct_refs_partial sc env jenv hrel value j jv hj hjv
       rw [hsv]
       simp only [Spec.Eval.Out.bind]
-      exact out_bind_not_val (ih fuel sc rc env jenv out sv jv hrc hs hrel hb hsvj hx)
+      exact out_bind_not_val (ih fuel sc rc env jenv out sv jv hrc hs hg hrel hb hsvj hx)
   · cases h
 
 /-! ### foreach -/
 
 /-- the state in which the foreach loop starts -/
-theorem foreach_e3 {sc : Scope} (hs : ScOk sc) (v : Bytes) (hv : v.contains 36 = false) (env : SEnv) (jenv : JEnv)
+theorem foreach_e3 {sc : Scope} (hs : ScOk sc) (hg : GoodBuf sc buf) (v : Bytes) (hv : v.contains 36 = false) (env : SEnv) (jenv : JEnv)
     (out : Bytes) (hrel : EnvRel sc env jenv) (hb : BufIs buf jenv out) (js : List JVal) (xl xn xi : Bytes)
     (hxl : xl = Scope.jsname v b!"List" (sc.n + 1)) (hxn : xn = Scope.jsname v b!"Limit" (sc.n + 1))
     (hxi : xi = Scope.jsname v b!"Index" (sc.n + 1)) (e3 : JEnv)
@@ -812,11 +806,8 @@ theorem foreach_e3 {sc : Scope} (hs : ScOk sc) (v : Bytes) (hv : v.contains 36 =
   have uL : IsUse b!"List" := Or.inr (Or.inl rfl)
   have uN : IsUse b!"Limit" := Or.inr (Or.inr (Or.inl rfl))
   have uI : IsUse b!"Index" := Or.inr (Or.inr (Or.inr rfl))
-  have nb : ∀ u m, Scope.jsname v u m ≠ buf := by
-    intro u m e
-    have := jsname_dollar v u m
-    rw [e, hbuf] at this
-    cases this
+  have nb : ∀ u, IsUse u → Scope.jsname v u (sc.n + 1) ≠ buf :=
+    fun u hu e => hg.1 v u (sc.n + 1) hv hu (Nat.lt_succ_self _) e.symm
   have ne_xn_xl : xl ≠ xn := by
     rw [hxl, hxn]; intro e; have := (jsname_inj_all hv hv uL uN e).2.1; simp at this
   have ne_xi_xl : xl ≠ xi := by
@@ -831,17 +822,17 @@ theorem foreach_e3 {sc : Scope} (hs : ScOk sc) (v : Bytes) (hv : v.contains 36 =
       (setLocal (setLocal (setLocal jenv xl (.arr js)) xn (.num js.length)) xi (.num 0)) := by
     rw [hxi]; exact keeps_setNew buf sc.n _ hv uI (Nat.lt_succ_self _) _
   have k123 := (k1.trans k2 (Nat.le_refl _)).trans k3 (Nat.le_refl _)
-  refine ⟨envRel_keep (sc' := sc) hrel k123 hs.2 (Nat.le_refl _) hbuf rfl, ?_, k123, ?_, ?_, find_setLocal_eq _ _ _⟩
+  refine ⟨envRel_keep (sc' := sc) hrel k123 hs.2 (Nat.le_refl _) hg.2 rfl, ?_, k123, ?_, ?_, find_setLocal_eq _ _ _⟩
   · unfold BufIs
-    rw [find_setLocal_ne _ xi buf _ (by rw [hxi]; exact (nb _ _).symm),
-      find_setLocal_ne _ xn buf _ (by rw [hxn]; exact (nb _ _).symm),
-      find_setLocal_ne _ xl buf _ (by rw [hxl]; exact (nb _ _).symm)]
+    rw [find_setLocal_ne _ xi buf _ (by rw [hxi]; exact (nb _ uI).symm),
+      find_setLocal_ne _ xn buf _ (by rw [hxn]; exact (nb _ uN).symm),
+      find_setLocal_ne _ xl buf _ (by rw [hxl]; exact (nb _ uL).symm)]
     exact hb
   · rw [find_setLocal_ne _ xi xl _ ne_xi_xl, find_setLocal_ne _ xn xl _ ne_xn_xl]; exact find_setLocal_eq _ _ _
   · rw [find_setLocal_ne _ xi xn _ ne_xi_xn]; exact find_setLocal_eq _ _ _
 
 /-- an iteration that throws: `loopSpec` has no value -/
-theorem loop_ne {sc : Scope} (hs : ScOk sc) (v : Bytes) (hv : v.contains 36 = false) (body : Block)
+theorem loop_ne {sc : Scope} (hs : ScOk sc) (hg : GoodBuf sc buf) (v : Bytes) (hv : v.contains 36 = false) (body : Block)
     (rb : JsStmts × Scope) (hrb : toBody ae buf body (sc.pushForEach v).2 = some rb) (ihb : BodyOk F ae buf body)
     (ihn : BodyNe F ae buf body)
     (env : SEnv) (xs : List Val) (js : List JVal) (hxs : C04c.toJsList xs = some js) (fuel last : Nat)
@@ -868,13 +859,10 @@ theorem loop_ne {sc : Scope} (hs : ScOk sc) (v : Bytes) (hv : v.contains 36 = fa
     rw [hxl, hxi]; intro e; have := (jsname_inj_all hv hv uL uI e).2.1; simp at this
   have ne_xi_xn : xn ≠ xi := by
     rw [hxn, hxi]; intro e; have := (jsname_inj_all hv hv uN uI e).2.1; simp at this
-  have nb : ∀ u m, Scope.jsname v u m ≠ buf := by
-    intro u m e
-    have := jsname_dollar v u m
-    rw [e, hbuf] at this
-    cases this
+  have nb : ∀ u, IsUse u → Scope.jsname v u (sc.n + 1) ≠ buf :=
+    fun u hu e => hg.1 v u (sc.n + 1) hv hu (Nat.lt_succ_self _) e.symm
   have hlen := C04c.toJsList_length xs js hxs
-  obtain ⟨hs1, _, hn1⟩ := scOk_pushForEach hs v
+  obtain ⟨hs1, _, hn1⟩ := scOk_pushForEach hs v hv
   intro rest
   induction rest with
   | nil =>
@@ -927,7 +915,7 @@ theorem loop_ne {sc : Scope} (hs : ScOk sc) (v : Bytes) (hv : v.contains 36 = fa
         exact this
       have hb_a : BufIs buf (setLocal e lv (js.getD i .undefined)) out := by
         unfold BufIs
-        rw [find_setLocal_ne e lv buf _ (by rw [hlv]; exact (nb _ _).symm)]
+        rw [find_setLocal_ne e lv buf _ (by rw [hlv]; exact (nb _ (Or.inl rfl)).symm)]
         exact hb
       simp only [Spec.Eval.loopSpec]
       rcases sres_bind_error hx with hbody | ⟨eb, hbody, hx⟩
@@ -945,7 +933,7 @@ theorem loop_ne {sc : Scope} (hs : ScOk sc) (v : Bytes) (hv : v.contains 36 = fa
           subst hvi
           simp only [SRes.ok.injEq] at hea
           subst hea
-          exact out_bind_not_val (ihn fuel _ rb _ _ out hrb hs1 hrel_a hb_a hbody)
+          exact out_bind_not_val (ihn fuel _ rb _ _ out hrb hs1 (goodBuf_pushForEach hg v hv) hrel_a hb_a hbody)
       · -- the body completes, a later iteration throws
         simp only [execStmts] at hbody
         obtain ⟨ea, hea, hbody⟩ := sres_bind_ok hbody
@@ -956,17 +944,17 @@ theorem loop_ne {sc : Scope} (hs : ScOk sc) (v : Bytes) (hv : v.contains 36 = fa
         subst hvi
         simp only [SRes.ok.injEq] at hea
         subst hea
-        obtain ⟨ti, hti, hb_b, hk_b⟩ := ihb fuel _ rb _ _ eb out hrb hs1 hrel_a hb_a hbody
+        obtain ⟨ti, hti, hb_b, hk_b⟩ := ihb fuel _ rb _ _ eb out hrb hs1 (goodBuf_pushForEach hg v hv) hrel_a hb_a hbody
         rw [hn1] at hk_b
         have oI : Old (sc.n + 1) xi := by rw [hxi]; exact old_jsname hv uI (Nat.le_refl _)
         have oL : Old (sc.n + 1) xl := by rw [hxl]; exact old_jsname hv uL (Nat.le_refl _)
         have oN : Old (sc.n + 1) xn := by rw [hxn]; exact old_jsname hv uN (Nat.le_refl _)
         have h3b : eb.locals.find? (·.1 == xi) = some (xi, .num i) := by
-          rw [hk_b.2.2 xi (by rw [hxi]; exact nb _ _) oI, find_setLocal_ne e lv xi _ ne_lv_xi]; exact h3
+          rw [hk_b.2.2 xi (by rw [hxi]; exact nb _ uI) oI, find_setLocal_ne e lv xi _ ne_lv_xi]; exact h3
         have h1b : eb.locals.find? (·.1 == xl) = some (xl, .arr js) := by
-          rw [hk_b.2.2 xl (by rw [hxl]; exact nb _ _) oL, find_setLocal_ne e lv xl _ ne_lv_xl]; exact h1
+          rw [hk_b.2.2 xl (by rw [hxl]; exact nb _ uL) oL, find_setLocal_ne e lv xl _ ne_lv_xl]; exact h1
         have h2b : eb.locals.find? (·.1 == xn) = some (xn, .num js.length) := by
-          rw [hk_b.2.2 xn (by rw [hxn]; exact nb _ _) oN, find_setLocal_ne e lv xn _ ne_lv_xn]; exact h2
+          rw [hk_b.2.2 xn (by rw [hxn]; exact nb _ uN) oN, find_setLocal_ne e lv xn _ ne_lv_xn]; exact h2
         rw [eval_local h3b] at hx
         rcases withVal_error hx with hx | ⟨v0, hv0, hx⟩
         · cases hx
@@ -985,10 +973,10 @@ theorem loop_ne {sc : Scope} (hs : ScOk sc) (v : Bytes) (hv : v.contains 36 = fa
           rw [hxi]; exact keeps_setNew buf sc.n eb hv uI (Nat.lt_succ_self _) _
         have hk_ec : Keeps buf sc.n e (setLocal eb xi (.num ((i + 1 : Nat) : Int))) :=
           (hk_a.trans (hk_b.mono (Nat.le_succ _)) (Nat.le_refl _)).trans hk_c (Nat.le_refl _)
-        have hrel_c := envRel_keep (sc' := sc) hrel hk_ec hs.2 (Nat.le_refl _) hbuf rfl
+        have hrel_c := envRel_keep (sc' := sc) hrel hk_ec hs.2 (Nat.le_refl _) hg.2 rfl
         have hb_c : BufIs buf (setLocal eb xi (.num ((i + 1 : Nat) : Int))) (out ++ ti) := by
           unfold BufIs
-          rw [find_setLocal_ne eb xi buf _ (by rw [hxi]; exact (nb _ _).symm)]
+          rw [find_setLocal_ne eb xi buf _ (by rw [hxi]; exact (nb _ uI).symm)]
           exact hb_b
         have h1c : (setLocal eb xi (.num ((i + 1 : Nat) : Int))).locals.find? (·.1 == xl) = some (xl, .arr js) := by
           rw [find_setLocal_ne eb xi xl _ ne_xi_xl]; exact h1b
@@ -1000,7 +988,6 @@ theorem loop_ne {sc : Scope} (hs : ScOk sc) (v : Bytes) (hv : v.contains 36 = fa
 
 /-! ### for … in range(…) -/
 
-omit hbuf in
 /-- a loop that completes or throws has compared two numbers -/
 theorem loop_first' {body : JEnv → SRes} {i lim : Bytes} {incr : JsExpr} {k : Nat} {e : JEnv} {vi vl : JVal}
     (hx : execLoopStep body i lim incr k e = .error) (h1 : e.locals.find? (·.1 == i) = some (i, vi))
@@ -1017,7 +1004,7 @@ theorem loop_first' {body : JEnv → SRes} {i lim : Bytes} {incr : JsExpr} {k : 
     · cases vi <;> cases vl <;> simp [binop] at hc
       exact ⟨_, _, rfl, rfl⟩
 
-theorem range_loop_ne {sc : Scope} (hs : ScOk sc) (v : Bytes) (hv : v.contains 36 = false) (body : Block)
+theorem range_loop_ne {sc : Scope} (hs : ScOk sc) (hg : GoodBuf sc buf) (v : Bytes) (hv : v.contains 36 = false) (body : Block)
     (rb : JsStmts × Scope) (hrb : toBody ae buf body (sc.pushForRange v).2 = some rb) (ihb : BodyOk F ae buf body)
     (ihn : BodyNe F ae buf body)
     (env : SEnv) (l s : Int) (hspos : 0 < s) (fuel last : Nat)
@@ -1032,12 +1019,9 @@ theorem range_loop_ne {sc : Scope} (hs : ScOk sc) (v : Bytes) (hv : v.contains 3
   have u0 : IsUse [] := Or.inl rfl
   have ne_lv_xn : xn ≠ lv := by
     rw [hxn, hlv]; intro e; have := (jsname_inj_all hv hv uN u0 e).2.1; simp at this
-  have nb : ∀ u m, Scope.jsname v u m ≠ buf := by
-    intro u m e
-    have := jsname_dollar v u m
-    rw [e, hbuf] at this
-    cases this
-  obtain ⟨hs1, _, hn1⟩ := scOk_pushForRange hs v
+  have nb : ∀ u, IsUse u → Scope.jsname v u (sc.n + 1) ≠ buf :=
+    fun u hu e => hg.1 v u (sc.n + 1) hv hu (Nat.lt_succ_self _) e.symm
+  obtain ⟨hs1, _, hn1⟩ := scOk_pushForRange hs v hv
   intro k
   induction k with
   | zero => intro a idx e out _ _ _ _ _ hx; simp [execLoopStep] at hx
@@ -1058,15 +1042,15 @@ theorem range_loop_ne {sc : Scope} (hs : ScOk sc) (v : Bytes) (hv : v.contains 3
       rw [rangeItems_step a l s hspos hlt]
       simp only [Spec.Eval.loopSpec]
       rcases sres_bind_error hx with hbody | ⟨eb, hbody, hx⟩
-      · exact out_bind_not_val (ihn fuel _ rb _ _ out hrb hs1 hrel_a hb hbody)
-      · obtain ⟨ti, hti, hb_b, hk_b⟩ := ihb fuel _ rb _ _ eb out hrb hs1 hrel_a hb hbody
+      · exact out_bind_not_val (ihn fuel _ rb _ _ out hrb hs1 (goodBuf_pushForRange hg v hv) hrel_a hb hbody)
+      · obtain ⟨ti, hti, hb_b, hk_b⟩ := ihb fuel _ rb _ _ eb out hrb hs1 (goodBuf_pushForRange hg v hv) hrel_a hb hbody
         rw [hn1] at hk_b
         have oI : Old (sc.n + 1) lv := by rw [hlv]; exact old_jsname hv u0 (Nat.le_refl _)
         have oN : Old (sc.n + 1) xn := by rw [hxn]; exact old_jsname hv uN (Nat.le_refl _)
         have h3b : eb.locals.find? (·.1 == lv) = some (lv, .num a) := by
-          rw [hk_b.2.2 lv (by rw [hlv]; exact nb _ _) oI]; exact h3
+          rw [hk_b.2.2 lv (by rw [hlv]; exact nb _ (Or.inl rfl)) oI]; exact h3
         have h2b : eb.locals.find? (·.1 == xn) = some (xn, .num l) := by
-          rw [hk_b.2.2 xn (by rw [hxn]; exact nb _ _) oN]; exact h2
+          rw [hk_b.2.2 xn (by rw [hxn]; exact nb _ uN) oN]; exact h2
         rw [eval_local h3b] at hx
         rcases withVal_error hx with hx | ⟨v0, hv0, hx⟩
         · cases hx
@@ -1088,10 +1072,10 @@ theorem range_loop_ne {sc : Scope} (hs : ScOk sc) (v : Bytes) (hv : v.contains 3
           rw [hlv]; exact keeps_setNew buf sc.n eb hv u0 (Nat.lt_succ_self _) _
         have hk_ec : Keeps buf sc.n e (setLocal eb lv (.num (a + s))) :=
           ((hk_b.mono (Nat.le_succ _))).trans hk_c (Nat.le_refl _)
-        have hrel_c := envRel_keep (sc' := sc) hrel hk_ec hs.2 (Nat.le_refl _) hbuf rfl
+        have hrel_c := envRel_keep (sc' := sc) hrel hk_ec hs.2 (Nat.le_refl _) hg.2 rfl
         have hb_c : BufIs buf (setLocal eb lv (.num (a + s))) (out ++ ti) := by
           unfold BufIs
-          rw [find_setLocal_ne eb lv buf _ (by rw [hlv]; exact (nb _ _).symm)]
+          rw [find_setLocal_ne eb lv buf _ (by rw [hlv]; exact (nb _ (Or.inl rfl)).symm)]
           exact hb_b
         have h2c : (setLocal eb lv (.num (a + s))).locals.find? (·.1 == xn) = some (xn, .num l) := by
           rw [find_setLocal_ne eb lv xn _ ne_lv_xn]; exact h2b
@@ -1102,7 +1086,6 @@ theorem range_loop_ne {sc : Scope} (hs : ScOk sc) (v : Bytes) (hv : v.contains 3
       simp only [this, toBoolean, Bool.false_eq_true, if_false] at hx
       cases hx
 
-omit hbuf in
 /-- if the `range(…)` call has a value, so have its limit and its start -/
 theorem range_args_val (env : SEnv) (pf : Nat) (args : ExprList) (l : Expr) (hl : rangeLimit args = some l) (w : Val)
     (hw : Spec.Eval.eval env (.func pf b!"range" args) = .val w) :
@@ -1141,18 +1124,15 @@ theorem range_args_val (env : SEnv) (pf : Nat) (args : ExprList) (l : Expr) (hl 
 
 theorem range_ne (p : Nat) (v : Bytes) (list : Expr) (body : Block) (ihb : BodyOk F ae buf body) (ihn : BodyNe F ae buf body) :
     ∀ (fuel : Nat) (sc : Scope) (r : JsStmts × Scope) (env : SEnv) (jenv : JEnv) (out : Bytes),
-      rangeJoin v list sc (toBody ae buf body (sc.pushForRange v).2) true = some r → ScOk sc → EnvRel sc env jenv →
+      rangeJoin v list sc (toBody ae buf body (sc.pushForRange v).2) true = some r → ScOk sc → GoodBuf sc buf → EnvRel sc env jenv →
       BufIs buf jenv out → execStmts F fuel r.1 jenv = .error → ∀ x, refCmd F ae (.forc p v list body none) env ≠ .val x := by
-  intro fuel sc r env jenv out h hs hrel hb hx
+  intro fuel sc r env jenv out h hs hg hrel hb hx
   obtain ⟨hv, _, args, l, c, jl, ji, rbv, pc, hr, hl, hinc, hpos, hjl, hji, hrb, rfl⟩ := rangeJoin_some h
   obtain ⟨pf, rfl⟩ := isRangeCall_some hr
   have uN : IsUse b!"Limit" := Or.inr (Or.inr (Or.inl rfl))
   have u0 : IsUse [] := Or.inl rfl
-  have nb : ∀ u m, Scope.jsname v u m ≠ buf := by
-    intro u m e
-    have := jsname_dollar v u m
-    rw [e, hbuf] at this
-    cases this
+  have nb : ∀ u, IsUse u → Scope.jsname v u (sc.n + 1) ≠ buf :=
+    fun u hu e => hg.1 v u (sc.n + 1) hv hu (Nat.lt_succ_self _) e.symm
   have ne_lv_xn : (sc.pushForRange v).1.2 ≠ (sc.pushForRange v).1.1 := by
     intro e
     have := (jsname_inj_all hv hv uN u0 e).2.1
@@ -1175,7 +1155,7 @@ theorem range_ne (p : Nat) (v : Bytes) (list : Expr) (body : Block) (ihb : BodyO
   obtain ⟨vlim, hvlim, hlimj⟩ := C04c.gen_correct_refs_partial sc env jenv hrel l jl jlim hjl hjlim
   have k1 : Keeps buf sc.n jenv (setLocal jenv (sc.pushForRange v).1.2 jlim) :=
     keeps_setNew buf sc.n jenv hv uN (Nat.lt_succ_self _) _
-  have hrel1 := envRel_keep (sc' := sc) hrel k1 hs.2 (Nat.le_refl _) hbuf rfl
+  have hrel1 := envRel_keep (sc' := sc) hrel k1 hs.2 (Nat.le_refl _) hg.2 rfl
   rcases sres_bind_error hx with h2 | ⟨e2, _, hx⟩
   case inr => cases hx
   simp only [execStmt] at h2
@@ -1188,7 +1168,7 @@ theorem range_ne (p : Nat) (v : Bytes) (list : Expr) (body : Block) (ihb : BodyO
       (setLocal (setLocal jenv (sc.pushForRange v).1.2 jlim) (sc.pushForRange v).1.1 jinit) :=
     keeps_setNew buf sc.n _ hv u0 (Nat.lt_succ_self _) _
   have k12 := k1.trans k2 (Nat.le_refl _)
-  have hrel2 := envRel_keep (sc' := sc) hrel k12 hs.2 (Nat.le_refl _) hbuf rfl
+  have hrel2 := envRel_keep (sc' := sc) hrel k12 hs.2 (Nat.le_refl _) hg.2 rfl
   have hfl : (setLocal (setLocal jenv (sc.pushForRange v).1.2 jlim) (sc.pushForRange v).1.1 jinit).locals.find?
       (·.1 == (sc.pushForRange v).1.2) = some ((sc.pushForRange v).1.2, jlim) := by
     rw [find_setLocal_ne _ _ _ _ ne_lv_xn]; exact find_setLocal_eq _ _ _
@@ -1196,12 +1176,12 @@ theorem range_ne (p : Nat) (v : Bytes) (list : Expr) (body : Block) (ihb : BodyO
   obtain ⟨rfl, hexa⟩ := C04c.toJsV_num hinitj
   obtain ⟨rfl, _⟩ := C04c.toJsV_num hlimj
   have hb2 : BufIs buf (setLocal (setLocal jenv (sc.pushForRange v).1.2 (.num lim)) (sc.pushForRange v).1.1 (.num a)) out := by
-    have nb1 : (sc.pushForRange v).1.1 ≠ buf := nb [] (sc.n + 1)
-    have nb2 : (sc.pushForRange v).1.2 ≠ buf := nb b!"Limit" (sc.n + 1)
+    have nb1 : (sc.pushForRange v).1.1 ≠ buf := nb [] u0
+    have nb2 : (sc.pushForRange v).1.2 ≠ buf := nb b!"Limit" uN
     unfold BufIs
     rw [find_setLocal_ne _ (sc.pushForRange v).1.1 buf _ nb1.symm, find_setLocal_ne _ (sc.pushForRange v).1.2 buf _ nb2.symm]
     exact hb
-  have hne := range_loop_ne F ae buf hbuf hs v hv body rbv hrb ihb ihn env lim c hpos fuel
+  have hne := range_loop_ne F ae buf hs hg v hv body rbv hrb ihb ihn env lim c hpos fuel
     ((rangeItems a lim c).length - 1) _ _ rfl rfl fuel a 0 _ out hexa hrel2 hb2 hfl (find_setLocal_eq _ _ _) h2
   have hev : Spec.Eval.eval env (.func pf b!"range" args) = .val (.list (rangeItems a lim c)) := by
     rw [range_eval env pf args l a lim c hl hvinit hvlim (by rw [hinc]; simp [Spec.Eval.eval]), rangeSpec_val a lim c hpos]
@@ -1218,7 +1198,6 @@ theorem range_ne (p : Nat) (v : Bytes) (list : Expr) (body : Block) (ihb : BodyO
 
 /-! ### the loop commands -/
 
-omit hbuf in
 /-- the two declarations in front of a foreach loop: if one throws, the specification has no list -/
 theorem foreach_prefix_ne {sc : Scope} (env : SEnv) (jenv : JEnv) (hrel : EnvRel sc env jenv) (list : Expr) (j : JsExpr)
     (hj : toAst sc list = some j) (fuel : Nat) (xl xn : Bytes) (rest : JEnv → SRes)
@@ -1255,10 +1234,10 @@ theorem foreach_prefix_ne {sc : Scope} (env : SEnv) (jenv : JEnv) (hrel : EnvRel
 
 theorem forc_none_ne (p : Nat) (v : Bytes) (list : Expr) (body : Block) (ihb : BodyOk F ae buf body)
     (ihn : BodyNe F ae buf body) : CmdNe F ae buf (.forc p v list body none) := by
-  intro fuel sc r env jenv out h hs hrel hb hx
+  intro fuel sc r env jenv out h hs hg hrel hb hx
   unfold toCmd at h
   rcases loopJoin_some h with h | h
-  case inr => exact range_ne F ae buf hbuf p v list body ihb ihn fuel sc r env jenv out h hs hrel hb hx
+  case inr => exact range_ne F ae buf p v list body ihb ihn fuel sc r env jenv out h hs hg hrel hb hx
   obtain ⟨hv, _, j, rbv, hj, hrb, he⟩ := forcJoin_some h
   simp only at he
   subst he
@@ -1269,14 +1248,14 @@ theorem forc_none_ne (p : Nat) (v : Bytes) (list : Expr) (body : Block) (ihb : B
     obtain ⟨lv, hlv, hxv⟩ := out_bind_val hxv
     cases lv <;> simp at hxv
     exact hno _ hlv
-  obtain ⟨xs, js, hev, hxs, _, _, _, he2, _, _⟩ := foreach_core F ae buf hbuf hs v hv list j hj body rbv hrb ihb env jenv out
+  obtain ⟨xs, js, hev, hxs, _, _, _, he2, _, _⟩ := foreach_core F ae buf hs hg v hv list j hj body rbv hrb ihb env jenv out
     hrel hb fuel _ _ _ _ rfl rfl rfl rfl e1 e2 h1 h2
   rcases sres_bind_error hx with h3 | ⟨e3, _, hx⟩
   case inr => cases hx
   simp only [execStmt] at h3
   rw [he2] at h3
-  obtain ⟨r3, b3, _, f1, f2, f3⟩ := foreach_e3 buf hbuf hs v hv env jenv out hrel hb js _ _ _ rfl rfl rfl _ rfl
-  have hne := loop_ne F ae buf hbuf hs v hv body rbv hrb ihb ihn env xs js hxs fuel (xs.length - 1) _ _ _ _ rfl rfl rfl rfl
+  obtain ⟨r3, b3, _, f1, f2, f3⟩ := foreach_e3 buf hs hg v hv env jenv out hrel hb js _ _ _ rfl rfl rfl _ rfl
+  have hne := loop_ne F ae buf hs hg v hv body rbv hrb ihb ihn env xs js hxs fuel (xs.length - 1) _ _ _ _ rfl rfl rfl rfl
     xs 0 List.drop_zero fuel _ out r3 b3 f1 f2 f3 h3
   rw [hev]
   simp only [Spec.Eval.Out.bind]
@@ -1288,7 +1267,7 @@ theorem forc_none_ne (p : Nat) (v : Bytes) (list : Expr) (body : Block) (ihb : B
 
 theorem forc_some_ne (p : Nat) (v : Bytes) (list : Expr) (body ie : Block) (ihb : BodyOk F ae buf body)
     (ihn : BodyNe F ae buf body) (ihe : BlockNe F ae buf ie) : CmdNe F ae buf (.forc p v list body (some ie)) := by
-  intro fuel sc r env jenv out h hs hrel hb hx
+  intro fuel sc r env jenv out h hs hg hrel hb hx
   unfold toCmd at h
   have h := (loopJoin_some h).resolve_right (by intro h'; have := (rangeJoin_some h').2.1; simp at this)
   obtain ⟨hv, _, j, rbv, hj, hrb, he⟩ := forcJoin_some h
@@ -1301,16 +1280,16 @@ theorem forc_some_ne (p : Nat) (v : Bytes) (list : Expr) (body ie : Block) (ihb 
     obtain ⟨lv, hlv, hxv⟩ := out_bind_val hxv
     cases lv <;> simp at hxv
     exact hno _ hlv
-  obtain ⟨xs, js, hev, hxs, hrel2, hb2, _, he2, hfn, _⟩ := foreach_core F ae buf hbuf hs v hv list j hj body rbv hrb ihb
+  obtain ⟨xs, js, hev, hxs, hrel2, hb2, _, he2, hfn, _⟩ := foreach_core F ae buf hs hg v hv list j hj body rbv hrb ihb
     env jenv out hrel hb fuel _ _ _ _ rfl rfl rfl rfl e1 e2 h1 h2
   have hlen := C04c.toJsList_length xs js hxs
   have hst : rbv.2.pop.stack = sc.stack := by
-    obtain ⟨_, p2, _⟩ := scOk_pushForEach hs v
-    obtain ⟨_, b2, _⟩ := toBody_scope ae buf body _ rbv hrb (scOk_pushForEach hs v).1
+    obtain ⟨_, p2, _⟩ := scOk_pushForEach hs v hv
+    obtain ⟨_, b2, _⟩ := toBody_scope ae body buf _ rbv hrb (scOk_pushForEach hs v hv).1
     simp only [Scope.pop]; rw [b2, p2]
   have hn : sc.n ≤ rbv.2.pop.n := by
-    obtain ⟨_, _, p3⟩ := scOk_pushForEach hs v
-    obtain ⟨_, _, b3⟩ := toBody_scope ae buf body _ rbv hrb (scOk_pushForEach hs v).1
+    obtain ⟨_, _, p3⟩ := scOk_pushForEach hs v hv
+    obtain ⟨_, _, b3⟩ := toBody_scope ae body buf _ rbv hrb (scOk_pushForEach hs v hv).1
     simp only [Scope.pop]; omega
   have hs' : ScOk rbv.2.pop := scOk_of_stack hs hst hn
   rcases sres_bind_error hx with h3 | ⟨e3, _, hx⟩
@@ -1331,8 +1310,8 @@ theorem forc_some_ne (p : Nat) (v : Bytes) (list : Expr) (body ie : Block) (ihb 
     case inr => cases h3
     simp only [execStmt] at h4
     rw [he2] at h4
-    obtain ⟨r3, b3, _, f1, f2, f3⟩ := foreach_e3 buf hbuf hs v hv env jenv out hrel hb js _ _ _ rfl rfl rfl _ rfl
-    have hne := loop_ne F ae buf hbuf hs v hv body rbv hrb ihb ihn env xs js hxs fuel (xs.length - 1) _ _ _ _ rfl rfl rfl rfl
+    obtain ⟨r3, b3, _, f1, f2, f3⟩ := foreach_e3 buf hs hg v hv env jenv out hrel hb js _ _ _ rfl rfl rfl _ rfl
+    have hne := loop_ne F ae buf hs hg v hv body rbv hrb ihb ihn env xs js hxs fuel (xs.length - 1) _ _ _ _ rfl rfl rfl rfl
       xs 0 List.drop_zero fuel _ out r3 b3 f1 f2 f3 h4
     cases xs with
     | nil => simp only [List.length_nil] at hlen; omega
@@ -1342,47 +1321,68 @@ theorem forc_some_ne (p : Nat) (v : Bytes) (list : Expr) (body ie : Block) (ihb 
   · have : decide ((0 : Int) < (js.length : Int)) = false := by simpa using hpos
     simp only [this, toBoolean, Bool.false_eq_true, if_false] at h3
     have hrel2' : EnvRel rbv.2.pop env e2 := envRel_stack hrel2 hst
-    have hne := ihe fuel _ re env e2 out hre hs' hrel2' hb2 h3
+    have hne := ihe fuel _ re env e2 out hre hs' (goodBuf_of_stack hg hst hn) hrel2' hb2 h3
     cases xs with
     | nil =>
       simp only [List.isEmpty_nil, if_true]
       exact out_bind_not_val hne
     | cons x xs' => simp only [List.length_cons] at hlen; omega
 
+theorem letContent_ne (p : Nat) (name : Bytes) (body : Block) (ih : ∀ buf', BlockNe F ae buf' body) :
+    CmdNe F ae buf (.letContent p name body) := by
+  intro fuel sc r env jenv out h hs hg hrel hb hx
+  unfold toCmd at h
+  obtain ⟨hname, rbv, hrb, rfl⟩ := letJoin_some h
+  have hs' : ScOk (sc.genname name).2 := scOk_of_stack hs rfl (Nat.le_succ _)
+  have hg' : GoodBuf (sc.genname name).2 (sc.genname name).1 :=
+    ⟨old_jsname hname (Or.inl rfl) (Nat.le_refl _), fun f hf kv hkv => (hs.2 f hf kv hkv).2 name [] (sc.n + 1) hname (Or.inl rfl)
+      (Nat.lt_succ_self _)⟩
+  simp only [execStmts] at hx
+  rcases sres_bind_error hx with h1 | ⟨e1, h1, hx⟩
+  · simp [execStmt] at h1
+  simp only [execStmt, SRes.ok.injEq] at h1
+  subst h1
+  have k1 : Keeps buf sc.n jenv (setLocal jenv (sc.genname name).1 (.str [])) :=
+    keeps_setNew buf sc.n jenv hname (Or.inl rfl) (Nat.lt_succ_self _) _
+  have hrel1 : EnvRel (sc.genname name).2 env (setLocal jenv (sc.genname name).1 (.str [])) :=
+    envRel_keep hrel k1 hs.2 (Nat.le_refl _) hg.2 rfl
+  simp only [refCmd]
+  exact out_bind_not_val (ih (sc.genname name).1 fuel _ rbv env _ [] hrb hs' hg' hrel1 (find_setLocal_eq _ _ _) hx)
+
 mutual
-  theorem cmd_ne : ∀ c : Cmd, CmdNe F ae buf c
-    | .rawText p t => rawText_ne F ae buf p t
-    | .print p arg dirs => print_ne F ae buf p arg dirs
-    | .letValue p x e => letValue_ne F ae buf p x e
-    | .ifc p conds => ifc_ne F ae buf p conds (conds_ne conds)
-    | .switch p value cases => switch_ne F ae buf p value cases (cases_ne cases)
-    | .forc p v list body none => forc_none_ne F ae buf hbuf p v list body (body_ok' F ae buf hbuf body) (body_ne' body)
-    | .forc p v list body (some ie) =>
-      forc_some_ne F ae buf hbuf p v list body ie (body_ok' F ae buf hbuf body) (body_ne' body) (block_ne' ie)
-    | .msg .. => fun _ _ _ _ _ _ h => by simp [toCmd] at h
-    | .css .. => fun _ _ _ _ _ _ h => by simp [toCmd] at h
-    | .debugger .. => fun _ _ _ _ _ _ h => by simp [toCmd] at h
-    | .log .. => fun _ _ _ _ _ _ h => by simp [toCmd] at h
-    | .call .. => fun _ _ _ _ _ _ h => by simp [toCmd] at h
-    | .letContent .. => fun _ _ _ _ _ _ h => by simp [toCmd] at h
-    | .headerParam .. => fun _ _ _ _ _ _ h => by simp [toCmd] at h
-    | .namespace .. => fun _ _ _ _ _ _ h => by simp [toCmd] at h
-    | .template .. => fun _ _ _ _ _ _ h => by simp [toCmd] at h
-    | .soyDoc .. => fun _ _ _ _ _ _ h => by simp [toCmd] at h
-  theorem body_ne' : ∀ b : Block, BodyNe F ae buf b
-    | .mk p cmds => body_ne F ae buf p cmds (cmds_ne cmds)
-  theorem block_ne' : ∀ b : Block, BlockNe F ae buf b
-    | .mk p cmds => block_ne F ae buf p cmds (cmds_ne cmds)
-  theorem cmds_ne : ∀ cs : CmdList, CmdsNe F ae buf cs
-    | .nil => cmds_nil_ne F ae buf
-    | .cons c rest => cmds_cons_ne F ae buf hbuf c rest (cmd_ne c) (cmds_ne rest)
-  theorem cases_ne : ∀ cs : CaseList, CasesNe F ae buf cs
-    | .nil => cases_nil_ne F ae buf
-    | .cons p values body rest => cases_cons_ne F ae buf p values body rest (block_ne' body) (cases_ne rest)
-  theorem conds_ne : ∀ cs : CondList, CondsNe F ae buf cs
-    | .nil => conds_nil_ne F ae buf
-    | .cons p (some c) body rest => conds_some_ne F ae buf p c body rest (block_ne' body) (conds_ne rest)
-    | .cons p none body rest => conds_else_ne F ae buf p body rest (block_ne' body)
+  theorem cmd_ne : ∀ (c : Cmd) (buf : Bytes), CmdNe F ae buf c
+    | .rawText p t, buf => rawText_ne F ae buf p t
+    | .print p arg dirs, buf => print_ne F ae buf p arg dirs
+    | .letValue p x e, buf => letValue_ne F ae buf p x e
+    | .ifc p conds, buf => ifc_ne F ae buf p conds (conds_ne conds buf)
+    | .switch p value cases, buf => switch_ne F ae buf p value cases (cases_ne cases buf)
+    | .forc p v list body none, buf => forc_none_ne F ae buf p v list body (body_ok' F ae body buf) (body_ne' body buf)
+    | .forc p v list body (some ie), buf =>
+      forc_some_ne F ae buf p v list body ie (body_ok' F ae body buf) (body_ne' body buf) (block_ne' ie buf)
+    | .letContent p name body, buf => letContent_ne F ae buf p name body (fun b' => block_ne' body b')
+    | .msg .., _ => fun _ _ _ _ _ _ h => by simp [toCmd] at h
+    | .css .., _ => fun _ _ _ _ _ _ h => by simp [toCmd] at h
+    | .debugger .., _ => fun _ _ _ _ _ _ h => by simp [toCmd] at h
+    | .log .., _ => fun _ _ _ _ _ _ h => by simp [toCmd] at h
+    | .call .., _ => fun _ _ _ _ _ _ h => by simp [toCmd] at h
+    | .headerParam .., _ => fun _ _ _ _ _ _ h => by simp [toCmd] at h
+    | .namespace .., _ => fun _ _ _ _ _ _ h => by simp [toCmd] at h
+    | .template .., _ => fun _ _ _ _ _ _ h => by simp [toCmd] at h
+    | .soyDoc .., _ => fun _ _ _ _ _ _ h => by simp [toCmd] at h
+  theorem body_ne' : ∀ (b : Block) (buf : Bytes), BodyNe F ae buf b
+    | .mk p cmds, buf => body_ne F ae buf p cmds (cmds_ne cmds buf)
+  theorem block_ne' : ∀ (b : Block) (buf : Bytes), BlockNe F ae buf b
+    | .mk p cmds, buf => block_ne F ae buf p cmds (cmds_ne cmds buf)
+  theorem cmds_ne : ∀ (cs : CmdList) (buf : Bytes), CmdsNe F ae buf cs
+    | .nil, buf => cmds_nil_ne F ae buf
+    | .cons c rest, buf => cmds_cons_ne F ae buf c rest (cmd_ne c buf) (cmds_ne rest buf)
+  theorem cases_ne : ∀ (cs : CaseList) (buf : Bytes), CasesNe F ae buf cs
+    | .nil, buf => cases_nil_ne F ae buf
+    | .cons p values body rest, buf => cases_cons_ne F ae buf p values body rest (block_ne' body buf) (cases_ne rest buf)
+  theorem conds_ne : ∀ (cs : CondList) (buf : Bytes), CondsNe F ae buf cs
+    | .nil, buf => conds_nil_ne F ae buf
+    | .cons p (some c) body rest, buf => conds_some_ne F ae buf p c body rest (block_ne' body buf) (conds_ne rest buf)
+    | .cons p none body rest, buf => conds_else_ne F ae buf p body rest (block_ne' body buf)
 end
 
 /-- PARTIAL (C04, the converse for the command fragment): if the reference semantics renders the commands
@@ -1392,27 +1392,26 @@ end
     not hold exactly, a print of a list or a map, a comparison outside the subset, the loop bound
     `fuel`).  It never throws. -/
 theorem gen_complete_cmds_partial (cmds : CmdList) (sc : Scope) (r : JsStmts × Scope) (h : toCmds ae buf cmds sc = some r)
-    (env : SEnv) (jenv : JEnv) (out : Bytes) (hs : ScOk sc) (hrel : EnvRel sc env jenv) (hb : BufIs buf jenv out)
-    (t : Bytes) (ht : refCmds F ae cmds env = .val t) (fuel : Nat) :
+    (env : SEnv) (jenv : JEnv) (out : Bytes) (hs : ScOk sc) (hg : GoodBuf sc buf) (hrel : EnvRel sc env jenv)
+    (hb : BufIs buf jenv out) (t : Bytes) (ht : refCmds F ae cmds env = .val t) (fuel : Nat) :
     (∃ jenv', execStmts F fuel r.1 jenv = .ok jenv' ∧ BufIs buf jenv' (out ++ t)) ∨ execStmts F fuel r.1 jenv = .unspec := by
   cases hx : execStmts F fuel r.1 jenv with
   | ok jenv' =>
-    obtain ⟨text, ht', hb', _⟩ := cmds_ok F ae buf hbuf cmds fuel sc r env jenv jenv' out h hs hrel hb hx
+    obtain ⟨text, ht', hb', _⟩ := cmds_ok F ae cmds buf fuel sc r env jenv jenv' out h hs hg hrel hb hx
     rw [ht] at ht'
     simp only [Out.val.injEq] at ht'
     subst ht'
     exact Or.inl ⟨jenv', rfl, hb'⟩
-  | error => exact absurd ht (cmds_ne F ae buf hbuf cmds fuel sc r env jenv out h hs hrel hb hx t)
+  | error => exact absurd ht (cmds_ne F ae cmds buf fuel sc r env jenv out h hs hg hrel hb hx t)
   | unspec => exact Or.inr rfl
 
-omit hbuf in
 /-- the same, read as "no TypeError where the reference renders" -/
-theorem gen_no_throw_cmds_partial (hbuf : buf.contains 36 = false) (cmds : CmdList) (sc : Scope) (r : JsStmts × Scope)
-    (h : toCmds ae buf cmds sc = some r) (env : SEnv) (jenv : JEnv) (out : Bytes) (hs : ScOk sc) (hrel : EnvRel sc env jenv)
-    (hb : BufIs buf jenv out) (t : Bytes) (ht : refCmds F ae cmds env = .val t) (fuel : Nat) :
+theorem gen_no_throw_cmds_partial (cmds : CmdList) (sc : Scope) (r : JsStmts × Scope)
+    (h : toCmds ae buf cmds sc = some r) (env : SEnv) (jenv : JEnv) (out : Bytes) (hs : ScOk sc) (hg : GoodBuf sc buf)
+    (hrel : EnvRel sc env jenv) (hb : BufIs buf jenv out) (t : Bytes) (ht : refCmds F ae cmds env = .val t) (fuel : Nat) :
     execStmts F fuel r.1 jenv ≠ .error := by
   intro hx
-  exact cmds_ne F ae buf hbuf cmds fuel sc r env jenv out h hs hrel hb hx t ht
+  exact cmds_ne F ae cmds buf fuel sc r env jenv out h hs hg hrel hb hx t ht
 
 end
 
